@@ -299,8 +299,12 @@ def apply_observe(sess, op):
 
             ok = all(x in m.comps for x in (sl["src"], sl["sleeper"], sl["load"]))
             ok = ok and m.kind(sl["src"]) == "Source" and m.comps[sl["src"]]["p"].get("rs") == 0.0 and not m.phase_conf[sl["src"]]
-            ok = ok and list(m.parents[sl["sleeper"]]) == [sl["src"]] and list(m.parents[sl["load"]]) == [sl["sleeper"]]
-            ok = ok and m.kind(sl["load"]) == "ILoad" and sorted(m.descendants(sl["src"])) == sorted([sl["sleeper"], sl["load"]])
+            deep = list(sl.get("deep") or [])
+            ok = ok and all(x in m.comps for x in deep)
+            chain = [sl["src"], sl["sleeper"]] + deep + [sl["load"]]
+            ok = ok and all(list(m.parents[c]) == [p_] for p_, c in zip(chain, chain[1:]))
+            ok = ok and all(not m.phase_conf[x] for x in deep)
+            ok = ok and m.kind(sl["load"]) == "ILoad" and sorted(m.descendants(sl["src"])) == sorted(chain[1:])
             ok = ok and m.phases_coherent() and sl["off"] in m.sys_phases
             if ok:
                 cf = m.phase_conf[sl["load"]]
@@ -311,7 +315,8 @@ def apply_observe(sess, op):
                 tag = next((p_ for p_ in ("C06", "C04") if p_ in E), None)
                 sess.stats["sleeper_overload_judged"] += 1
                 if tag:
-                    sess.fail(tag, "sleeping-element-is-off", "solve() raised %s(%s) although the system solved before a separate branch %s -> %s -> %s was added whose series element sleeps in phase %r, the only phase in which its load is heavy" % (r[1], r[2], sl["src"], sl["sleeper"], sl["load"], sl["off"]))
+                    sess.fail(tag, "sleeping-element-is-off", "solve() raised %s(%s) although the system solved before a separate branch %s was added whose series element %s sleeps in phase %r, the only phase in which its load is heavy" % (r[1], r[2], " -> ".join(chain), sl["sleeper"], sl["off"]),
+                              sig="dead-branch-two-levels-below-the-sleeper" if deep else "")
         if not op.get("kw"):
             sess.last_plain_solve_ok = False
         if "C03" in E:
@@ -330,7 +335,7 @@ def apply_observe(sess, op):
         if not op.get("kw"):
             sess.last_plain_solve_ok = True
         if op.get("sleeper"):
-            sess.stats["sleeper_overload_solved"] += 1
+            sess.stats["sleeper_overload_solved" + ("_deep" if op["sleeper"].get("deep") else "")] += 1
         table = O.Table(r[1])
         if sess.gen is not None and table.phases:
             sess.gen.last_table = table.comp[table.phases[0]]
